@@ -188,8 +188,8 @@ fn run_client_close_races_server_close() {
 #[test]
 fn verif_sweep_c09_races_around_the_close() {
     for _ in 0..20 {
-        run_reply_then_close();
-        run_client_close_races_server_close();
+        with_watchdog("reply and close in one batch".to_string(), 40, run_reply_then_close);
+        with_watchdog("client close racing a server close".to_string(), 40, run_client_close_races_server_close);
     }
 }
 
@@ -200,7 +200,7 @@ fn verif_sweep_c09_server_closes_a_channel_in_every_state() {
         for &half_content in &[false, true] {
             for &consumers in &[0usize, 1, 2] {
                 for &other_in_flight in &[false, true] {
-                    run(call_in_flight, half_content, consumers, other_in_flight);
+                    with_watchdog(format!("call_in_flight={} half_content={} consumers={} other_in_flight={}", call_in_flight, half_content, consumers, other_in_flight), 40, move || run(call_in_flight, half_content, consumers, other_in_flight));
                     count += 1;
                 }
             }
